@@ -283,14 +283,14 @@ def restore_module(tree, relpath):
     """functions / methods of the baseline that no longer exist under their name: if exactly one new function of the same class is
     alpha-equivalent to the baseline body, the definition and every reference in this module (obj.<new>, bare <new>) are renamed back
     (in place).  Applied only if the old name occurs nowhere in the current module.  Returns {new: old}."""
-    ren_attrs = restore_attributes(tree, relpath)
+    ren_attrs = {}
     base = {k.split(":", 1)[1]: v for k, v in _baseline().items() if k.startswith(relpath + ":") and not k.startswith(relpath + "::")}
     if not base:
-        return dict(ren_attrs)
+        return dict(restore_attributes(tree, relpath))
     cur = _functions(tree)
     missing = [q for q in base if q not in cur]
     if not missing:
-        return dict(ren_attrs)
+        return dict(restore_attributes(tree, relpath))
     extra = [q for q in cur if q not in base]
     canon_of = {q: canon(cur[q]) for q in extra}
     mp = {}
@@ -300,7 +300,7 @@ def restore_module(tree, relpath):
         if len(cands) == 1:
             mp[cands[0]] = q
     if not mp:
-        return dict(ren_attrs)
+        return dict(restore_attributes(tree, relpath))
     used = {n.attr for n in ast.walk(tree) if isinstance(n, ast.Attribute)} | {n.id for n in ast.walk(tree) if isinstance(n, ast.Name)} | {q.rpartition(".")[2] for q in cur}
     ren = {}
     for new_q, old_q in mp.items():
@@ -310,7 +310,7 @@ def restore_module(tree, relpath):
         ren[new] = old
         cur[new_q].name = old
     if not ren:
-        return dict(ren_attrs)
+        return dict(restore_attributes(tree, relpath))
     for n in ast.walk(tree):
         if isinstance(n, ast.Attribute) and n.attr in ren:
             n.attr = ren[n.attr]
@@ -319,4 +319,6 @@ def restore_module(tree, relpath):
     note = f"{relpath}: functions renamed back to the contract's names (alpha-equivalent bodies): " + ", ".join(f"{n} -> {o}" for n, o in sorted(ren.items()))
     if note not in NOTES:
         NOTES.append(note)
-    return {**ren_attrs, **ren}
+    # functions first (a method that is also wrapped into an instance attribute of the same name, e.g. self._f = lru_cache(..)(self._f), is
+    # restored as a function, which renames the attribute with it), then the remaining instance attributes
+    return {**restore_attributes(tree, relpath), **ren}
